@@ -142,6 +142,18 @@ def check_anchors(g, clip, s):
     split = [c for c, ids in comp.items() if len(ids) > 1]
     if split:
         out.append(f"surface-split: the faces connected to face {split[0]} carry {sorted(comp[split[0]])}")
+    # … and regions separated by curves carry different ids; a surface-anchored edge carries the id of its two faces
+    owner = {}
+    for c, ids in comp.items():
+        for a in ids:
+            if a in owner and owner[a] != c:
+                out.append(f"surface-shared: the regions of faces {owner[a]} and {c} are separated by curves but both carry {a}")
+            owner[a] = c
+    for d in m.used:
+        e = m.b2[d]
+        if e and EA[m.eid[d]][0] == "S" and not (EA[m.eid[d]] == FA[m.fid[d]] == FA[m.fid[e]]):
+            out.append(f"edge-surface-mismatch: edge {m.eid[d]} is anchored to {EA[m.eid[d]]}, its faces to {FA[m.fid[d]]} / {FA[m.fid[e]]}")
+            break
     # (5) one curve id per boundary section
     seen = set()
     for d0 in m.boundary_darts():
